@@ -114,12 +114,25 @@ func solve(o *Obligation, dir string, timeout int) *SolveResult {
 			o2.consistencyOnly = true
 			cf := base + ".consistency.smt2"
 			os.WriteFile(cf, []byte(o2.Text("z3new")), 0644)
-			st, _, _ := runSolver(context.Background(), solvers[1], cf, 10)
+			st, _, _ := runSolver(context.Background(), solvers[1], cf, 4)
 			if st == "unsat" {
-				st2, _, _ := runSolver(context.Background(), solvers[2], base+".consistency.smt2", 10)
+				st2, _, _ := runSolver(context.Background(), solvers[2], base+".consistency.smt2", 4)
 				if st2 != "sat" {
 					res.Status = "vacuous"
 					res.Detail = "the assumptions of this obligation are unsatisfiable on their own"
+				}
+			}
+			if res.Status == "discharged" {
+				// ... and the path to the obligation must be feasible under them: an obligation that holds
+				// because nothing reaches it (a hole in the engine's model, or dead code) is not a proof
+				o2.reachOnly = true
+				rf := base + ".reach.smt2"
+				os.WriteFile(rf, []byte(o2.Text("z3new")), 0644)
+				if st, _, _ := runSolver(context.Background(), solvers[1], rf, 4); st == "unsat" {
+					if st2, _, _ := runSolver(context.Background(), solvers[2], rf, 4); st2 != "sat" {
+						res.Status = "vacuous"
+						res.Detail = "no execution reaches this obligation under the engine's assumptions (dead code, or a hole in the model)"
+					}
 				}
 			}
 		}
